@@ -5,7 +5,7 @@ From Verif Require Import lib.Wire c03.Int64 c03.Model c03.Spec c03.Witness
      c03.Proofs_Int64 c03.Proofs_Base c03.Proofs_Limiter c03.Proofs_Reach c03.Proofs_Link
      c03.Proofs_OpsMem c03.Proofs_Hist c03.Proofs_Mon c03.Proofs_Link2 c03.Proofs_Transfer c03.Proofs_OpsRepar
      c03.Proofs_SetPeer c03.Proofs_Hist2 c03.Proofs_Mon2 c03.Proofs_Keys c03.Proofs_Refs c03.Proofs_RefInv c03.Proofs_GC
-     c03.Proofs_Prio c03.Proofs_Cap c03.Proofs_CapInv c03.Proofs_Just c03.Proofs_Just2 c03.Proofs_Ans c03.Proofs_Ans2 c03.Proofs_Full.
+     c03.Proofs_Prio c03.Proofs_Cap c03.Proofs_CapInv c03.Proofs_Cap2 c03.Proofs_Just c03.Proofs_Just2 c03.Proofs_Ans c03.Proofs_Ans2 c03.Proofs_Full.
 Import ListNotations.
 Local Open Scope Z_scope.
 
@@ -210,6 +210,29 @@ Theorem c03_release_all_zero : forall c ops t, disciplined c ops ->
 Proof. exact release_all_zero_full. Qed.
 Print Assumptions c03_release_all_zero.
 
+(* the per-subnet limiter, both directions.  Along every history its counters ARE the
+   numbers of open connections (per network prefix entry; per subnet rule and subnet): *)
+Theorem c03_limiter_counts_are_open_connections : forall c ops, disciplined c ops ->
+  LimCount c (lims (run c (init_state c) ops)) (open_ips (run_aT c (init_state c) astate0 ops) false).
+Proof. intros c ops D. destruct (history_full c ops D) as (_ & _ & _ & _ & Ci & _). exact Ci. Qed.
+Print Assumptions c03_limiter_counts_are_open_connections.
+
+(* ... addConn is all-or-nothing: a refusal changes nothing at all ... *)
+Theorem c03_limiter_refusal_changes_nothing : forall c st i inb usefd ip,
+  limiter_add c (lims st) ip = None -> open_conn c st i inb usefd (Some ip) = (st, E_CAP).
+Proof. intros c st i inb usefd ip H. unfold open_conn. rewrite H. reflexivity. Qed.
+Print Assumptions c03_limiter_refusal_changes_nothing.
+
+(* ... and it refuses an endpoint only when the network prefix that governs it, or one
+   of its subnets under the subnet rules, is at its cap - counted over the connections
+   that are open (hence: with room everywhere it admits, and when every connection is
+   done it is empty and admits cap-many again).  Spec.cap_reached is what the monitor
+   demands of every per-IP refusal of the implementation *)
+Theorem c03_limiter_refuses_only_at_cap : forall c l a L,
+  LimCount c l L -> limiter_add c l a = None -> cap_reached c L a = true.
+Proof. exact limiter_add_refused. Qed.
+Print Assumptions c03_limiter_refuses_only_at_cap.
+
 (* "the number of simultaneously open connections from one IP subnet never
    exceeds the configured per-subnet cap": the limiter's counters ARE the numbers
    of open connections (LimCount is part of InvG), so whenever a connection with
@@ -244,9 +267,9 @@ Print Assumptions c03_limit_refusal_justified.
    first SetPeer / SetProtocol / SetService are refused ONLY with the sentinel, also after
    any number of gc steps.  The monitor demands exactly this of the implementation
    (Spec.answer_ok, part of mon_run) *)
-Theorem c03_refused_only_with_sentinel : forall c st a o, cfg_ok c -> InvL c st a ->
+Theorem c03_refused_only_with_sentinel : forall c st a o, cfg_ok c -> InvL c st a -> CapInv c st a ->
   match o with OGC => True | _ => wf_op2 c st a o end ->
-  answer_ok a o (snd (step c st o)) = true.
+  answer_ok c a o (snd (step c st o)) = true.
 Proof. exact ans_step. Qed.
 Print Assumptions c03_refused_only_with_sentinel.
 
@@ -331,6 +354,12 @@ Proof. vm_compute. reflexivity. Qed.
 (* ... and an OpenConnection refused with an error that does not wrap the sentinel (seeded m8) *)
 Example monitor_rejects_plain_error_openconn :
   mon_run base_cfg astate0 [] 0 [(OOpenConn 0 true true None, mkObs 3 0 [])] = [ERR_PROPERTY; 0; CL_ANSWER; 3; 1].
+Proof. vm_compute. reflexivity. Qed.
+
+(* ... a per-IP refusal while the endpoint's /56 and /48 have room (seeded m11) *)
+Example monitor_rejects_cap_refusal_with_room :
+  mon_run base_cfg astate0 [] 0
+    [(OOpenConn 0 true true (Some (mkIp true 1)), mkObs 4 0 [])] = [ERR_PROPERTY; 0; CL_ANSWER; 4; 1].
 Proof. vm_compute. reflexivity. Qed.
 
 Example monitor_rejects_unjustified_refusal :
